@@ -320,6 +320,9 @@ def unit_policy(item):
     depth = 2 if (tier != "quick" or name == "dact") else 1
     if tier == "quick" and depth == 2:
         recs = recs[:3]
+    if tier != "quick" and len(recs) > 24:
+        # 6 nodes: 120 start tours x thousands of sampler answers each is hours; a spread of 10 start tours is explored
+        recs = [recs[round(i * (len(recs) - 1) / 9)] for i in range(10)]
     for rec in recs:
         td0 = reset_with_tours(env, kind, locs, [rec, rec])
 
@@ -338,7 +341,7 @@ def unit_policy(item):
             return trace
 
         try:
-            for ch, trace, seam in explore(run, max_dev=None, limit=4000 if tier == "quick" else 40_000, float_patterns=False, tie_rows=True):
+            for ch, trace, seam in explore(run, max_dev=None, limit=4000 if tier == "quick" else (12_000 if name == "dact" else 5_000), float_patterns=False, tie_rows=True):
                 p.add(states=1)
                 hist = []
                 for (b, a, af) in trace:
@@ -387,6 +390,66 @@ def unit_init(item):
 # -------------------------------------------------------------------------------------------
 
 
+# ------------------------------------------------------------------------------------------- (e) torchrl mode
+
+
+def unit_torchrl(item):
+    """`_torchrl_mode=True` (TorchRL-style stepping, used by the step-wise trainers): env.step(td) returns td with a
+    separate "next" state.  Every admitted move from every valid tour (and one level deeper): BOTH states of the
+    transition are judged - the next state like everywhere else, and the state that was stepped from must still be the
+    state it was before the call (its best tour, costs and current tour unchanged, best-so-far cost = length of its
+    stored best tour)."""
+    _, kind, n, locs, tier = item
+    p = Partial()
+    env = TSPkoptEnv(generator_params=dict(num_loc=n), k_max=2, _torchrl_mode=True) if kind == "tsp" else PDPRuinRepairEnv(generator_params=dict(num_loc=n - 1), _torchrl_mode=True)
+    recs = all_tours(kind, n)
+    level_td = reset_with_tours(env, kind, locs, recs)
+    name = "tsp_kopt" if kind == "tsp" else "pdp_ruin_repair"
+    keys = ("rec_current", "rec_best", "cost_current", "cost_bsf", "visited_time")
+    for depth in range(2):
+        moves = admitted_moves(env, kind, level_td)
+        idx, acts = [], []
+        for r, ms in enumerate(moves):
+            for a in ms:
+                idx.append(r)
+                acts.append(a)
+        if not idx:
+            break
+        td_in = level_td[torch.tensor(idx)].clone()
+        td_in.set("action", torch.tensor(acts, dtype=torch.long))
+        snapshot = {k: td_in[k].clone() for k in keys}
+        out = env.step(td_in)
+        nxt = out["next"]
+        p.add(states=len(idx), transitions=len(idx), evaluations=2 * len(idx), distinct_count=len(idx), traces_validated_against_impl=len(idx))
+        before_rows = [{k: snapshot[k][q].tolist() for k in keys} for q in range(len(idx))]
+        held_rows = rows_of(td_in, keys)
+        after_rows = rows_of(nxt)
+        bad = 0
+        for q, a in enumerate(acts):
+            hist = (before_rows[q]["rec_current"], [])
+            report(p, kind, "torchrl", locs, before_rows[q], after_rows[q], a, "torchrl_mode_next_state", hist)
+            changed = [k for k in keys if held_rows[q][k] != before_rows[q][k]]
+            if changed and bad < 3:
+                bad += 1
+                p.violation(
+                    dict(property=PID, env=name, config="torchrl", observable="previous_state_mutated", trigger="torchrl_mode"),
+                    dict(kind="improve_torchrl", env=kind, locs=locs, n=n),
+                    f"{kind} (_torchrl_mode): stepping move {list(a)} from tour {before_rows[q]['rec_current']} rewrote {changed} of the state that was stepped from (its rec_best is now {held_rows[q]['rec_best']} while its cost_bsf is still {held_rows[q]['cost_bsf']})",
+                )
+            p.outcome(f"{kind}|torchrl|{after_rows[q]['reward'] > 0}")
+        seen, keep = set(), []
+        for q in range(len(idx)):
+            key = (tuple(after_rows[q]["rec_current"]), tuple(after_rows[q]["rec_best"]))
+            if key not in seen:
+                seen.add(key)
+                keep.append(q)
+        level_td = nxt[torch.tensor(keep)].clone()
+        if "action" in level_td.keys():
+            level_td = level_td.exclude("action")
+    p.sample(dict(part="torchrl_mode", env=kind, n=n, initial_tours=len(recs)), cap=1)
+    return p
+
+
 def work_items(tier):
     items = []
     q = tier == "quick"
@@ -407,6 +470,8 @@ def work_items(tier):
         items.append(("policy", "neuopt", "tsp", 5, 3, [list(x) for x in PTS[:5]], tier, ws))
         items.append(("policy", "neuopt", "tsp", 6 if not q else 5, 4, [list(x) for x in PTS[: 6 if not q else 5]], tier, ws))
         items.append(("policy", "n2s", "pdp", 5, 0, [list(x) for x in PTS[:5]], tier, ws))
+    items.append(("torchrl", "tsp", 5, [list(x) for x in PTS[:5]], tier))
+    items.append(("torchrl", "pdp", 5, [list(x) for x in PTS[:5]], tier))
     items.append(("init", "tsp", 5, tier))
     items.append(("init", "pdp", 5, tier))
     if not q:
@@ -415,7 +480,7 @@ def work_items(tier):
 
 
 def unit(item):
-    return dict(moves=unit_moves, random=unit_random, policy=unit_policy, init=unit_init)[item[0]](item)
+    return dict(moves=unit_moves, random=unit_random, policy=unit_policy, init=unit_init, torchrl=unit_torchrl)[item[0]](item)
 
 
 def main(tier):
@@ -442,6 +507,9 @@ def replay(rec):
         order = cycle_order(r)
         bad = order is None or (rec["env"] == "pdp" and not precedence_ok(order))
         return bad, f"initial solution {r}"
+    if rec.get("kind") == "improve_torchrl" or rec.get("config") == "torchrl":
+        p = unit_torchrl(("torchrl", rec["env"], len(rec["locs"]), rec["locs"], "quick"))
+        return bool(p.violations), "; ".join(v["msg"] for v in p.violations[:2]) or "both states of every torchrl-mode transition are consistent"
     kind = rec["env"]
     n = len(rec["locs"])
     k = int(rec["config"][1:]) if rec.get("config", "").startswith("k") else 2
